@@ -3297,7 +3297,7 @@ static hawk_val_t* io_nde_to_str(hawk_rtx_t* rtx, hawk_nde_t* nde, hawk_oocs_t* 
 
 	hawk_rtx_refupval (rtx, v);
 	dst->ptr = hawk_rtx_getvaloocstr(rtx, v, &dst->len);
-	if (HAWK_UNLIKELY(!dst))
+	if (HAWK_UNLIKELY(!dst->ptr))
 	{
 		hawk_rtx_refdownval (rtx, v);
 		return HAWK_NULL;
